@@ -9,7 +9,7 @@
   (B) per op family: once the modelled `validate` accepted, every block a task addresses exists (and, for the
       region store, has the shape the write expects).  Where the unchanged code falsifies this the full
       statement is kept as a `def … : Prop`, with `…_partial` under an explicit hypothesis and `…_fails` from a
-      concrete witness (stack with zero-size inputs, repeat, map_blocks, legacy pairwise fusion).  scan, stack and the
+      concrete witness (stack with zero-size inputs, map_blocks, legacy pairwise fusion).  scan, stack, repeat and the
       region store were repaired by `fix:` commits: they are proved for the repaired code, and the old witnesses are kept
       as theorems about the old variants (`…_old…`).
   (C) the assertion conditions that follow from validated inputs.
@@ -76,33 +76,58 @@ theorem C17_accepted_total_merge (n c0 T bi : Nat) (hc0 : 0 < c0) (hT : 0 < T) (
 
 example : validateMerge ⟨[2], [4]⟩ = .ok () ∧ sliceBlocks 2 4 7 = [2, 3] ∧ nblocks 7 2 = 4 := by decide
 
-/-- repeat, full statement: whatever `validateRepeat` accepts addresses an existing input block along the repeated
-axis (`i` = the axis NumPy means, i.e. `axis` normalised). -/
-def C17_repeat_total : Prop :=
-  ∀ (p : RepeatP) (r : Int) (i n c bi : Nat), p.repeats = .int r → validateRepeat p = .ok () →
+/-- repeat (after fix cfb5bf3): whatever `validateRepeat` accepts with `repeats ≠ 0` addresses an existing input block
+along the repeated axis — the key function now compares positions with the *normalised* axis `i`.  (`repeats = 0`
+returns an empty array and builds no blockwise op, so no task addresses anything.) -/
+theorem C17_accepted_total_repeat (p : RepeatP) (r : Int) (i n c bi : Nat) (hrep : p.repeats = .int r)
+    (hv : validateRepeat p = .ok ()) (_hax : validateAxis p.axis p.shape.length = .ok i) (hr0 : r ≠ 0) (hc : 0 < c)
+    (hbi : bi < nblocks (n * r.toNat) c) :
+    ∃ k, repeatKeyAt (i : Int) i r.toNat bi = some k ∧ k < nblocks n c := by
+  have hr : 0 ≤ r := by
+    simp only [validateRepeat, hrep] at hv
+    split at hv
+    · cases hv
+    · omega
+  have hr1 : 1 ≤ r.toNat := by omega
+  have hr0' : r.toNat ≠ 0 := by omega
+  exact ⟨bi / r.toNat, by simp [repeatKeyAt, repeatKey, hr0'], repeat_key_lt n c r.toNat bi hc hr1 hbi⟩
+
+example : validateRepeat ⟨[4, 1], .int 2, -2⟩ = .ok () ∧ repeatKeyAt 0 0 2 3 = some 1 ∧ (1 : Nat) < nblocks 4 2 := by
+  decide
+
+example : validateAxis (-2) 2 = .ok 0 := by rfl
+
+/-- the repaired code refuses negative repeats and an out-of-range axis, and accepts axis = -1. -/
+theorem C17_repeat_refusals :
+    validateRepeat ⟨[4], .int (-1), 0⟩ = .error .ValueError ∧ validateRepeat ⟨[4], .int 2, 1⟩ = .error .IndexError ∧
+    validateRepeat ⟨[4], .int 2, -1⟩ = .ok () ∧ validateRepeat ⟨[4], .other, 0⟩ = .error .ValueError := by decide
+
+/-- OLD variant (before fix cfb5bf3), full statement: whatever the old `repeat` accepted addressed an existing input
+block along the repeated axis (`i` = the axis NumPy means; the old key function compared with the raw `axis`). -/
+def C17_repeat_total_old : Prop :=
+  ∀ (p : RepeatP) (r : Int) (i n c bi : Nat), p.repeats = .int r → validateRepeatOld p = .ok () →
     validateAxis p.axis p.shape.length = .ok i → 0 < c →
     bi < nblocks (n * r.toNat) c → ∃ k, repeatKeyAt p.axis i r.toNat bi = some k ∧ k < nblocks n c
 
-/-- … holds when `repeats ≥ 1` and the axis is given as a non-negative number (`bi // repeats` stays below the
-input's block count). -/
-theorem C17_repeat_total_partial (axis : Int) (i r n c bi : Nat) (hax : (i : Int) = axis) (hr : 1 ≤ r) (hc : 0 < c)
+/-- OLD variant held when `repeats ≥ 1` and the axis was given as a non-negative number. -/
+theorem C17_repeat_total_old_partial (axis : Int) (i r n c bi : Nat) (hax : (i : Int) = axis) (hr : 1 ≤ r) (hc : 0 < c)
     (hbi : bi < nblocks (n * r) c) : ∃ k, repeatKeyAt axis i r bi = some k ∧ k < nblocks n c := by
   have hr0 : r ≠ 0 := by omega
   exact ⟨bi / r, by simp [repeatKeyAt, hax, repeatKey, hr0], repeat_key_lt n c r bi hc hr hbi⟩
 
 example : repeatKeyAt 0 0 3 5 = some 1 ∧ (5 : Nat) < nblocks (4 * 3) 2 ∧ (1 : Nat) < nblocks 4 2 := by decide
 
-/-- … fails for `repeats = 0`, which `repeat` accepts: the single (empty) output block evaluates `0 // 0` inside the
-task (ZeroDivisionError) … -/
-theorem C17_repeat_total_fails : ¬ C17_repeat_total := by
+/-- OLD variant failed for `repeats = 0`, which was accepted: the single (empty) output block evaluated `0 // 0`
+inside the task (ZeroDivisionError) … -/
+theorem C17_repeat_total_old_fails : ¬ C17_repeat_total_old := by
   intro h
   have := h ⟨[4], .int 0, 0⟩ 0 0 4 2 0 rfl (by decide) (by rfl) (by omega) (by decide)
   obtain ⟨k, hk, _⟩ := this
   simp [repeatKeyAt, repeatKey] at hk
 
-/-- … and for a negative axis other than -1 (-1 is refused): the key function compares positions with the
-un-normalised axis, never divides, and out block 3 of 4 addresses input block 3 of 2. -/
-theorem C17_repeat_negative_axis_fails : ¬ C17_repeat_total := by
+/-- … and for a negative axis other than -1 (-1 was refused): the key function compared positions with the
+un-normalised axis, never divided, and out block 3 of 4 addressed input block 3 of 2. -/
+theorem C17_repeat_negative_axis_old_fails : ¬ C17_repeat_total_old := by
   intro h
   have := h ⟨[4, 1], .int 2, -2⟩ 2 0 4 2 3 rfl (by decide) (by rfl) (by omega) (by decide)
   obtain ⟨k, hk, hlt⟩ := this
